@@ -39,7 +39,7 @@ def sensitivity_block():
         m = json.load(open(mp))
         sid = m["id"]
         prop = m["breaks_property"]
-        conf = m.get("confirmation") or {}
+        conf = m.get("first_confirmation") or m.get("confirmation") or {}
         checks = m.get("checks") or {}
         caught = []
         for c, v in checks.items():
@@ -54,15 +54,22 @@ def sensitivity_block():
         if first is None:
             first = bool(caught)
         summ = m.get("summary") or ""
-        rows.append((sid, prop, summ, "yes" if conf.get("confirmed") else "no", "yes" if first else "**no**", "; ".join(caught) if caught else "**missed**"))
+        now = "; ".join(caught) if caught else "**missed**"
+        if m.get("superseded") and not caught:
+            now = "n/a: " + m["superseded"].split(":")[0].split(" (")[0]
+        firsts = "yes" if first else "**no**"
+        if m.get("first_run_invalid"):
+            firsts = "**no** (alarm came from a base defect)"
+        rows.append((sid, prop, summ, "yes" if conf.get("confirmed") else "no", firsts, now))
     out = ["| id | breaks | change (what it needs to manifest) | confirmed | caught at first run | caught now by (violation classes) |", "|---|---|---|---|---|---|"]
     for r in rows:
         out.append("| %s | %s | %s | %s | %s | %s |" % r)
     n = len(rows)
-    now = sum(1 for r in rows if r[5] != "**missed**")
+    now = sum(1 for r in rows if r[5] != "**missed**" and not r[5].startswith("n/a"))
+    gone = sum(1 for r in rows if r[5].startswith("n/a"))
     first = sum(1 for r in rows if r[4] == "yes")
     out.append("")
-    out.append("%d confirmed variants; %d caught by the quick tier as it was when the variant was first run, %d caught by the quick tier now." % (n, first, now))
+    out.append("%d confirmed variants; %d caught by the quick tier as it was when the variant was first run; now %d caught, %d missed, %d no longer applicable because a later fix in /repo neutralised them." % (n, first, now, n - now - gone, gone))
     return "\n".join(out) + "\n"
 
 
